@@ -39,14 +39,48 @@
    request's peer and agent under the rules; it need not RECORD them: when a
    rotation pushes the session's object out of the cache inside RegenerateID
    (cache size 1) Start's note of peer and agent reaches neither cache nor store
-   (C01L_peer_not_moved_size1). Hence "same peer, same agent" in the promise;
-   the variant promising service to every peer and agent the rules accept
-   relative to the last accepted request's is false (C01_liveness_rules_refuted,
-   Properties/C01H.v). *)
+   (C01L_peer_not_moved_size1). Hence "same peer, same agent" in the promise
+   of C01_liveness_hist; the variant promising service to every peer and agent
+   the rules accept relative to the last accepted request's is false
+   (C01_liveness_rules_refuted, Properties/C01H.v) — and not only at cache size
+   1: C01L_rules_refuted_every_size_class.
+
+   Under the package's own acceptance rules (audit task A4; Proofs/C01Rules.v,
+   Proofs/C01RulesEx.v): since the record ACCEPTS the last accepted request's
+   peer a0 and agent u0, the promise extends to exactly the requests (a, u)
+   that every record accepting (a0, u0) accepts (C01L_accept_iff_all_records):
+   ip_ok n a0 a, ua_ok b u0 u, and not (the octet rule compares something, a0
+   is an address Start's pattern did not match, a is one it matches) — at EVERY
+   cache size (C01L_liveness_acc, C01L_served_acc). So a client whose source
+   port changes at every request is covered (C01L_live_cond_acc_port), with
+   AcceptRemoteIP <= 1 and AcceptChangingUserAgent any peer and agent is
+   (C01L_live_cond_acc_any), and the plain rule-based variant holds along every
+   admissible history in which the octet rule compares nothing or no request
+   comes from an unmatched address (C01L_liveness_rules). The boundary of the
+   plain variant is the address shape, not the cache size: it fails at sizes 1,
+   2, 3 (sizes >= 2: all cached sessions equally old and an unlucky map order)
+   and with an unbounded cache when SessionCacheExpiry is negative.
+
+   What the failing cases have in common is a rotation of the ID by Start at
+   the last accepted request. Precisely (Proofs/C01Peer6.v,
+   C01L_peer_after_own_exact): after a client's own request that is given a
+   session, the record its jar's ID resolves to holds THAT request's peer and
+   agent, unless Start returned the session under another ID than the
+   presented one (or the cache is disabled), in which case it may hold what the
+   presented ID resolved to before — nothing else. Hence the third form
+   (Proofs/C01Rules2.v; ghost l_step3): per client the peers and agents of its
+   accepted requests since the last one at which Start did not rotate the ID;
+   the promise is due when every one of them accepts the request's peer and
+   agent (C01L_liveness_set, C01L_served_set; every cache size). After a request
+   without a rotation by Start there is one candidate and the condition IS the
+   plain rule-based one (C01L_live_cond_set_single); with rotations it covers a
+   client alternating between matched and unmatched addresses (IPv4/IPv6),
+   which the second form leaves out. *)
 From Sessions Require Import Model.Base Model.Sess Model.Hist Model.Corr Proofs.SessDefs
   Proofs.WriteThrough Proofs.WriteThrough4 Proofs.WriteThrough5
   Proofs.C01Spec Proofs.C01Hist Proofs.C01Hist4 Proofs.C01Hist7 Proofs.C01Hist11
-  Proofs.C01Live Proofs.C01Live3 Proofs.C01Live4 Proofs.C01Live5 Proofs.C01Peer5 Proofs.C01Live6.
+  Proofs.C01Live Proofs.C01Live3 Proofs.C01Live4 Proofs.C01Live5 Proofs.C01Peer5 Proofs.C01Live6
+  Proofs.C01Peer6 Proofs.C01Rules Proofs.C01RulesEx Proofs.C01Rules2 Proofs.C01RulesEx2.
 From Sessions Require Proofs.HistInv Proofs.HistInv3 Proofs.StartLaws4 Proofs.LiveHist4 Proofs.LiveHist5 Proofs.LiveHist6.
 
 (* ------------------------------------------------------------ the theorem *)
@@ -168,6 +202,234 @@ Theorem C01L_peer_not_moved_size1 :
                                    (rq' 1 (AOther 5) 7 false [])))) (KGen 1)) = Some (AOther 5).
 Proof. exact peer_not_moved_size1. Qed.
 
+(* ---------------------------------- under the package's acceptance rules *)
+
+(* Along every admissible history, EVERY cache size: a request less than
+   SessionExpiry (minus the codec's resolution) after the client's last accepted
+   request, from a peer and with an agent that Start's rules accept relative to
+   that request's, and such that acceptance passes on (C01L_live_cond_acc_meaning),
+   is served. *)
+Theorem C01L_liveness_acc :
+  forall c hs,
+  forallb (live_hop (c_acceptip c) (c_acceptua c) (c_json c)) hs = true ->
+  l_run2 live_cond_acc (c, []) (mkWorld (init_st c) []) hs = true.
+Proof. exact c01_liveness_acc. Qed.
+
+(* The plain rule-based promise (live_cond_rules: C01_liveness_rules_statement's
+   condition, nothing added), every cache size, when the octet rule compares
+   nothing (AcceptRemoteIP <= 1 or > 4) or every request of the history comes
+   from an address Start's pattern matches. *)
+Theorem C01L_liveness_rules :
+  forall c hs,
+  forallb (live_hop (c_acceptip c) (c_acceptua c) (c_json c)) hs = true ->
+  ((c_acceptip c <=? 1)%Z || (4 <? c_acceptip c)%Z = true \/
+   forallb (fun h => match h with HReq r => is_v4 (rq_addr r) | _ => true end) hs = true) ->
+  l_run2 live_cond_rules (c, []) (mkWorld (init_st c) []) hs = true.
+Proof. exact c01_liveness_rules. Qed.
+
+(* one request after any admissible history, with the safety half *)
+Theorem C01L_served_acc :
+  forall c hs r t0 a0 u0,
+  forallb (live_hop (c_acceptip c) (c_acceptua c) (c_json c)) (hs ++ [HReq r]) = true ->
+  let w := HistInv3.after (mkWorld (init_st c) []) hs in
+  let g := g_after [] hs (run c hs) in
+  let cl := l_after2 (c, []) (mkWorld (init_st c) []) hs in
+  l_get (snd cl) (rq_client r) = Some (t0, a0, u0) ->
+  live_cond_acc (fst cl) (now (w_st w)) (t0, a0, u0) (rq_addr r) (rq_ua r) = true ->
+  served w r = true /\
+  ob_res (snd (step w (HReq r))) = RSess /\
+  exists id rc, ob_start (snd (step w (HReq r))) = Some (id, rc) /\
+                g_get g (rq_client r) = Some (content_of rc).
+Proof. exact c01_served_acc. Qed.
+
+(* every admissible step keeps the invariant (the same LI), and this promise if due *)
+Theorem C01L_inv_step_acc :
+  forall j n b w g cf lg h,
+  LI j n b w g cf lg -> live_hop n b j h = true ->
+  fst (l_step2 live_cond_acc (cf, lg) w h (snd (step w h))) = true /\
+  LI j n b (fst (step w h)) (snd (g_step g h (snd (step w h))))
+     (fst (snd (l_step2 live_cond_acc (cf, lg) w h (snd (step w h)))))
+     (snd (snd (l_step2 live_cond_acc (cf, lg) w h (snd (step w h))))).
+Proof. exact LI_step_acc. Qed.
+
+(* the identical-peer promise is a special case *)
+Theorem C01L_acc_extends_same :
+  forall cf t x a u, live_cond cf t x a u = true -> live_cond_acc cf t x a u = true.
+Proof. exact live_cond_acc_same. Qed.
+
+Theorem C01L_live_cond_acc_meaning :
+  forall cf t t0 a0 u0 a u,
+  live_cond_acc cf t (t0, a0, u0) a u =
+  negb (c_maxcache cf =? 0)%Z && (0 <=? c_expiry cf)%Z && (0 <=? c_grace cf)%Z && (c_idexpiry cf <=? max64)%Z &&
+  (t - t0 + StartLaws4.slack cf <? c_expiry cf)%Z &&
+  ip_ok (c_acceptip cf) a0 a && ua_ok (c_acceptua cf) u0 u &&
+  ((c_acceptip cf <=? 1)%Z || (4 <? c_acceptip cf)%Z || is_v4 a0 || negb (is_v4 a)).
+Proof. exact live_cond_acc_meaning. Qed.
+
+Theorem C01L_live_cond_rules_meaning :
+  forall cf t t0 a0 u0 a u,
+  live_cond_rules cf t (t0, a0, u0) a u =
+  negb (c_maxcache cf =? 0)%Z && (0 <=? c_expiry cf)%Z && (0 <=? c_grace cf)%Z && (c_idexpiry cf <=? max64)%Z &&
+  (t - t0 + StartLaws4.slack cf <? c_expiry cf)%Z &&
+  ip_ok (c_acceptip cf) a0 a && ua_ok (c_acceptua cf) u0 u.
+Proof. exact live_cond_rules_meaning. Qed.
+
+(* the three peer/agent conjuncts say exactly: every record that accepts the
+   last accepted request's peer and agent accepts this request's (so nothing
+   more can follow from C01L_peer_after_own) *)
+Theorem C01L_accept_iff_all_records :
+  forall n b a0 u0 a u,
+  ip_ok n a0 a && ua_ok b u0 u && ((n <=? 1)%Z || (4 <? n)%Z || is_v4 a0 || negb (is_v4 a)) = true <->
+  (forall x v, ip_ok n x a0 = true -> ua_ok b v u0 = true -> ip_ok n x a = true /\ ua_ok b v u = true).
+Proof. exact accept_iff_all_records. Qed.
+
+(* only the port and the last octet differ, same agent: promised at every setting *)
+Theorem C01L_live_cond_acc_port :
+  forall cf t t0 p q r s s' pt pt' u,
+  live_cond_acc cf t (t0, V4 p q r s pt, u) (V4 p q r s' pt') u =
+  negb (c_maxcache cf =? 0)%Z && (0 <=? c_expiry cf)%Z && (0 <=? c_grace cf)%Z && (c_idexpiry cf <=? max64)%Z &&
+  (t - t0 + StartLaws4.slack cf <? c_expiry cf)%Z.
+Proof. exact live_cond_acc_port. Qed.
+
+(* AcceptRemoteIP <= 1 and AcceptChangingUserAgent: any peer, any agent *)
+Theorem C01L_live_cond_acc_any :
+  forall cf t t0 a0 u0 a u,
+  (c_acceptip cf <= 1)%Z -> c_acceptua cf = true ->
+  live_cond_acc cf t (t0, a0, u0) a u =
+  negb (c_maxcache cf =? 0)%Z && (0 <=? c_expiry cf)%Z && (0 <=? c_grace cf)%Z && (c_idexpiry cf <=? max64)%Z &&
+  (t - t0 + StartLaws4.slack cf <? c_expiry cf)%Z.
+Proof. exact live_cond_acc_any. Qed.
+
+(* the plain variant fails beyond cache size 1: admissible histories (no
+   faults, cookie-following clients) with a broken promise at sizes 1, 2, 3
+   with SessionCacheExpiry >= 0, and with an unbounded cache *)
+Theorem C01L_rules_refuted_every_size_class :
+  (forall mx, In mx [1; 2; 3]%Z ->
+     exists c hs, c_maxcache c = mx /\ (0 <= c_cacheexpiry c)%Z /\
+       forallb (live_hop (c_acceptip c) (c_acceptua c) (c_json c)) hs = true /\
+       l_run2 live_cond_rules (c, []) (mkWorld (init_st c) []) hs = false) /\
+  (exists c hs, (c_maxcache c < 0)%Z /\
+       forallb (live_hop (c_acceptip c) (c_acceptua c) (c_json c)) hs = true /\
+       l_run2 live_cond_rules (c, []) (mkWorld (init_st c) []) hs = false).
+Proof. exact rules_refuted_every_size_class. Qed.
+
+(* ------------------- which peer and agent are recorded; the candidate ghost *)
+
+(* after the client's own request that is given a session (Start returned it
+   under ID id): the record its jar's ID resolves to holds this request's peer
+   and agent, or — only if the cache is disabled or id is not the ID the jar
+   held (Start rotated) — the peer and agent of what that ID resolved to *)
+Theorem C01L_peer_after_own_exact :
+  forall j w g r id rc0 k',
+  JI w g -> W j w -> wf_req r = true -> rq_present r = PJar ->
+  ob_start (snd (step w (HReq r))) = Some (id, rc0) -> ob_jar (snd (step w (HReq r))) = CKey k' ->
+  forall r1, L (w_st (fst (step w (HReq r)))) k' = Some r1 ->
+  (r_ip r1 = rq_addr r /\ r_ua r1 = rq_ua r) \/
+  ((c_maxcache (conf (w_st w)) = 0%Z \/ jar_of (w_jars w) (rq_client r) <> CKey id) /\
+   exists k0 r0, jar_of (w_jars w) (rq_client r) = CKey k0 /\ L (w_st w) k0 = Some r0 /\
+                 r_ip r1 = r_ip r0 /\ r_ua r1 = r_ua r0).
+Proof. exact peer_own_exact_L. Qed.
+
+(* Along every admissible history, every cache size: a request less than
+   SessionExpiry (minus the codec's resolution) after the client's last accepted
+   request, whose peer and agent are accepted by the peers and agents of all
+   the client's accepted requests since the last one without a rotation by
+   Start (C01L_ghost3_step_meaning, C01L_live_cond_set_meaning), is served. *)
+Theorem C01L_liveness_set :
+  forall c hs,
+  forallb (live_hop (c_acceptip c) (c_acceptua c) (c_json c)) hs = true ->
+  l_run3 live_cond_set (c, []) (mkWorld (init_st c) []) hs = true.
+Proof. exact c01_liveness_set. Qed.
+
+Theorem C01L_served_set :
+  forall c hs r t0 cs op,
+  forallb (live_hop (c_acceptip c) (c_acceptua c) (c_json c)) (hs ++ [HReq r]) = true ->
+  let w := HistInv3.after (mkWorld (init_st c) []) hs in
+  let g := g_after [] hs (run c hs) in
+  let cl := l_after3 (c, []) (mkWorld (init_st c) []) hs in
+  a_get (snd cl) (rq_client r) = Some (t0, cs, op) ->
+  live_cond_set (fst cl) (now (w_st w)) (t0, cs, op) (rq_addr r) (rq_ua r) = true ->
+  served w r = true /\
+  ob_res (snd (step w (HReq r))) = RSess /\
+  exists id rc, ob_start (snd (step w (HReq r))) = Some (id, rc) /\
+                g_get g (rq_client r) = Some (content_of rc).
+Proof. exact c01_served_set. Qed.
+
+(* the invariant: as LI, and for every entry (t0, cs, op) the record the jar's
+   ID resolves to holds one of the candidates cs, or (op = Some p0, the oldest
+   candidate) one that accepts p0 *)
+Theorem C01L_inv3_meaning :
+  forall j n b w g cf lg,
+  LI3 j n b w g cf lg <->
+  JI w g /\ W j w /\ conf (w_st w) = cf /\ c_acceptip cf = n /\ c_acceptua cf = b /\
+  (forall c t0 cs op, a_get lg c = Some (t0, cs, op) ->
+     (forall p0, op = Some p0 -> In p0 cs) /\
+     exists k, owns j c k (fl j t0) w /\
+       forall r, L (w_st w) k = Some r ->
+         In (r_ip r, r_ua r) cs \/
+         exists p0, op = Some p0 /\ ip_ok n (r_ip r) (fst p0) = true /\ ua_ok b (r_ua r) (snd p0) = true).
+Proof. exact LI3_meaning. Qed.
+
+Theorem C01L_inv3_init :
+  forall c, LI3 (c_json c) (c_acceptip c) (c_acceptua c) (mkWorld (init_st c) []) [] c [].
+Proof. exact LI3_init. Qed.
+
+Theorem C01L_inv3_step :
+  forall j n b w g cf lg h,
+  LI3 j n b w g cf lg -> live_hop n b j h = true ->
+  fst (l_step3 live_cond_set (cf, lg) w h (snd (step w h))) = true /\
+  LI3 j n b (fst (step w h)) (snd (g_step g h (snd (step w h))))
+      (fst (snd (l_step3 live_cond_set (cf, lg) w h (snd (step w h)))))
+      (snd (snd (l_step3 live_cond_set (cf, lg) w h (snd (step w h))))).
+Proof. exact LI3_step. Qed.
+
+Theorem C01L_live_cond_set_meaning :
+  forall cf t t0 cs op a u,
+  live_cond_set cf t (t0, cs, op) a u =
+  negb (c_maxcache cf =? 0)%Z && (0 <=? c_expiry cf)%Z && (0 <=? c_grace cf)%Z && (c_idexpiry cf <=? max64)%Z &&
+  (t - t0 + StartLaws4.slack cf <? c_expiry cf)%Z &&
+  forallb (fun p => ip_ok (c_acceptip cf) (fst p) a && ua_ok (c_acceptua cf) (snd p) u) cs &&
+  match op with
+  | Some p0 => (c_acceptip cf <=? 1)%Z || (4 <? c_acceptip cf)%Z || is_v4 (fst p0) || negb (is_v4 a)
+  | None => true
+  end.
+Proof. exact live_cond_set_meaning. Qed.
+
+(* one candidate, not open (the entry after a request at which Start did not
+   rotate, or created the session): the plain rule-based condition *)
+Theorem C01L_live_cond_set_single :
+  forall cf t t0 a0 u0 a u,
+  live_cond_set cf t (t0, [(a0, u0)], None) a u = live_cond_rules cf t (t0, a0, u0) a u.
+Proof. exact live_cond_set_single. Qed.
+
+(* the ghost: an entry is written under the conditions of l_step2; it is reset
+   to the request's peer and agent when Start returned the session under the ID
+   the jar held, else it grows (or begins, open if the jar held an ID) *)
+Theorem C01L_ghost3_step_meaning :
+  forall cond cf lg w r o,
+  l_step3 cond (cf, lg) w (HReq r) o =
+  (match a_get lg (rq_client r) with
+   | Some x => if cond cf (now (w_st w)) x (rq_addr r) (rq_ua r) then served w r else true
+   | None => true
+   end,
+   (cf, match ob_start o, ob_jar o with
+        | Some (id, _), CKey _ =>
+          if (c_maxcache cf =? 0)%Z || existsb is_destroy (rq_script r) then a_del lg (rq_client r)
+          else a_set lg (rq_client r)
+                 (if match jar_of (w_jars w) (rq_client r) with CKey k => key_eqb k id | _ => false end
+                  then (now (w_st w), [(rq_addr r, rq_ua r)], None)
+                  else match a_get lg (rq_client r) with
+                       | Some (_, cs, op) => (now (w_st w), (rq_addr r, rq_ua r) :: cs, op)
+                       | None => (now (w_st w), [(rq_addr r, rq_ua r)],
+                                  match jar_of (w_jars w) (rq_client r) with
+                                  | CKey _ => Some (rq_addr r, rq_ua r)
+                                  | _ => None
+                                  end)
+                       end)
+        | _, _ => a_del lg (rq_client r)
+        end)).
+Proof. exact l_step3_req_meaning. Qed.
+
 (* ----------------------------------------------------------- vocabulary *)
 
 Theorem C01L_live_hop_meaning :
@@ -225,6 +487,39 @@ Print Assumptions C01L_respects_other.
 Print Assumptions C01L_peer_other_steps.
 Print Assumptions C01L_peer_after_own.
 Print Assumptions C01L_peer_not_moved_size1.
+Print Assumptions C01L_liveness_acc.
+Print Assumptions C01L_liveness_rules.
+Print Assumptions C01L_served_acc.
+Print Assumptions C01L_inv_step_acc.
+Print Assumptions C01L_accept_iff_all_records.
+Print Assumptions C01L_rules_refuted_every_size_class.
+Print Assumptions C01L_peer_after_own_exact.
+Print Assumptions C01L_liveness_set.
+Print Assumptions C01L_served_set.
+Print Assumptions C01L_inv3_meaning.
+Print Assumptions C01L_inv3_init.
+Print Assumptions C01L_inv3_step.
+(* non-vacuity (Proofs/C01RulesEx2.v): a client alternating between a matched
+   and an unmatched address, with a rotation by Start at every request
+   (candidates accumulate; due at 5 of 8 requests, where the second form is due
+   at 3 and the identical-peer form at 1) and with none (one candidate) *)
+Print Assumptions hist_dual_due.
+Print Assumptions hist_dual_live.
+Print Assumptions hist_dual_norotation.
+Print Assumptions hist_dual_served.
+Print Assumptions hist_others_due3.
+(* non-vacuity (Proofs/C01RulesEx.v): a client with a new source port at every
+   request, rotation on every request, one-slot cache, the strictest octet rule:
+   the promise under the rules is due at 5 of 7 requests (the identical-peer
+   promise at 1), the theorems applied at cache sizes 1, 2, unbounded; rules
+   switched off: address and agent change at every request; the witnesses of
+   the refutation *)
+Print Assumptions hist_port_due.
+Print Assumptions hist_port_live.
+Print Assumptions hist_port_served_last.
+Print Assumptions hist_any_due.
+Print Assumptions hist_any_live.
+Print Assumptions rules_witness_shape.
 (* non-vacuity (Proofs/C01Live6.v): an admissible history (two clients evicting
    each other from a one-slot cache, rotations, purge, exclusive logins,
    user-wide operations, waits below and above the expiry) on which the promise
